@@ -25,6 +25,7 @@ type ruleSpec struct {
 	Trail   string   `json:"trail"`             // white space after `" \` on operator lines
 	Actions []string `json:"actions"`           // extra actions after the id line
 	Sep     string   `json:"sep,omitempty"`     // white space between the directive name and the variables (default one blank)
+	IDLate  bool     `json:"idlate,omitempty"`  // the id is not the first action on its line ("phase:2,id:NNN,\)
 	Compact bool     `json:"compact,omitempty"` // a rule without chain written on two lines: the operator line and one line with all actions
 }
 
@@ -83,10 +84,16 @@ func (c *rulesCase) render(override map[string]string) (string, map[string]int) 
 			}
 			lines = append(lines, fmt.Sprintf(`%sSecRule%sREQUEST_COOKIES|ARGS_NAMES|ARGS|XML:/* "%s %s" \%s`, ind, sep, op.Op, operand, r.Trail))
 			if r.Compact && len(r.Chain) == 1 {
-				lines = append(lines, `    "id:`+r.ID+`,phase:2,block,t:none"`)
+				if r.IDLate {
+					lines = append(lines, `    "phase:2,block,id:`+r.ID+`,t:none"`)
+				} else {
+					lines = append(lines, `    "id:`+r.ID+`,phase:2,block,t:none"`)
+				}
 				continue
 			}
-			if k == 0 {
+			if k == 0 && r.IDLate {
+				lines = append(lines, ind+`    "phase:2,id:`+r.ID+`,\`, ind+`    block,\`)
+			} else if k == 0 {
 				lines = append(lines, ind+`    "id:`+r.ID+`,\`)
 				lines = append(lines, ind+`    phase:2,\`, ind+`    block,\`)
 				for _, a := range r.Actions {
@@ -133,7 +140,7 @@ var awkwardSources = []string{
 	`name=" \(x\)` + "\n", `\$_(?:GET|POST)` + "\n", `\$1x` + "\n" + `a${b}` + "\n", "trailing blank \n", `href=" \(` + "\n",
 	"foo\nbar\n", "ls\ncat\n", `a\$b` + "\n", `\"quoted\"` + "\n" + "x\n", `"@rx foo` + "\n", `a "@rx b` + "\n" + "c\n", "a b\n", `a\\b` + "\n", `\x5cd` + "\n",
 	`" \d` + "\n", `[\"']x` + "\n", `^\s*x$` + "\n", "##!+ i\nselect\nunion\n", "##!^ \\b\nfoo\nfob\n", `a" \` + "\n" + `b\n`, "x\\ \n", "uid:932100x\n", "SecRule\nSecAction\n",
-	"", "##! only a comment\n", "##!> define unused x\n\n", "(?:lisa|maggie\n", "fine\n##!> assemble\n  open\n", "ok\n##!> frobnicate\n", `"!@rx x` + "\n", "##!> assemble\na\nb\n##!=>\nc\n##!<\n", `\.(?:ht|js)` + "\n", "é\n", `end" \\` + "\n",
+	"[ ]select\n", "[ ]+x\n[ ]y\n", "", "##! only a comment\n", "##!> define unused x\n\n", "(?:lisa|maggie\n", "fine\n##!> assemble\n  open\n", "ok\n##!> frobnicate\n", `"!@rx x` + "\n", "##!> assemble\na\nb\n##!=>\nc\n##!<\n", `\.(?:ht|js)` + "\n", "é\n", `end" \\` + "\n",
 }
 
 func rulesGen(r *rand.Rand, lane string) *rulesCase {
@@ -148,14 +155,14 @@ func rulesGen(r *rand.Rand, lane string) *rulesCase {
 			continue
 		}
 		used[id] = true
-		rs := ruleSpec{ID: id, Trail: core.Pick(r, "", "", "", " ", "  ", "\t"), Sep: core.Pick(r, "", "", "", "\t", "  ", " \t")}
+		rs := ruleSpec{ID: id, Trail: core.Pick(r, "", "", "", " ", "  ", "\t"), Sep: core.Pick(r, "", "", "", "\t", "  ", " \t"), IDLate: core.Chance(r, 1, 5)}
 		clen := 1 + r.Intn(4)
 		if core.Chance(r, 1, 2) {
 			clen = 1
 		}
 		for k := 0; k < clen; k++ {
 			op := core.Pick(r, "@rx", "@rx", "@rx", "!@rx", "@pm", "@streq", "@detectSQLi")
-			operand := core.Pick(r, "old", `^old\d+$`, `old\"x`, "a b", "", `(?i)o\x5cld`, "old @rx older", `name=\" \(x\)`, `a\" \.b\" \d`, `\$old_\d`, "ARGS", "XML", "SecRule", "REQUEST_COOKIES", "S")
+			operand := core.Pick(r, "old", `^old\d+$`, `old\"x`, "a b", "", `(?i)o\x5cld`, "old @rx older", `name=\" \(x\)`, `a\" \.b\" \d`, `\$old_\d`, "ARGS", "XML", "SecRule", "REQUEST_COOKIES", "S", " lead", "  two blanks", "\tx")
 			if !strings.HasSuffix(op, "rx") {
 				operand = core.Pick(r, "foo bar", "x", "")
 			}
